@@ -43,6 +43,8 @@ def run(chk: Check) -> None:
     run_traverser_children(chk, ix)
     run_checker_caches(chk, ix)
     run_twin_fields(chk, ix)
+    run_not_in_dependency(chk, ix)
+    run_reprocess_ignore_notes(chk, ix)
 
     r1 = chk.rule("R03.1", "reprocess_nodes performs snapshot < clear < strip < analyse < merge < check < snapshot < compare < update_deps on every normal path, returns the compared triggers, and the propagation loop re-queues error targets and resets protocol caches first", floor=12)
     rp = ix.func("mypy.server.update.reprocess_nodes")
@@ -568,3 +570,38 @@ def run_twin_fields(chk: Check, ix) -> None:
                 r9.violation(key, f.loc(node), f"`{base}.{attr}` is rewritten but `{base}.{twin}` is not: the pair disagrees from here on (add_dependency / suppress_dependency consult the set and then edit the list)")
     if n < 6:
         raise AnalysisError(f"only {n} writes of State list/set twins found")
+
+
+def run_not_in_dependency(chk: Check, ix) -> None:
+    """R03.10: every comparison operator the checker resolves through a method generates a dependency on it."""
+    r10 = chk.rule("R03.10", "the checker resolves `a in b` and `a not in b` through b.__contains__ (ExpressionChecker.visit_comparison_expr treats the two spellings together) and every other comparison through operators.op_methods; the dependency visitor's process_binary_op looks operators up in op_methods, which has no entry for `not in`, so it handles that spelling itself: otherwise `x not in c` has no fine-grained dependency on __contains__ and the daemon misses errors after the method changes", floor=2)
+    ce = ix.func("mypy.checkexpr.ExpressionChecker.visit_comparison_expr")
+    checker_not_in = any(isinstance(c, ast.Constant) and c.value == "not in" for c in ast.walk(ce.node))
+    ops = ix.module("mypy.operators")
+    table = ix.const_eval(ops, ops.assigns["op_methods"]) if hasattr(ix, "const_eval") else None
+    in_table = isinstance(table, dict) and "not in" in table
+    r10.ok("the checker type-checks `not in` through __contains__" if checker_not_in else "the checker does not mention `not in`", ce.loc())
+    dv = ix.func("mypy.server.deps.DependencyVisitor.process_binary_op")
+    handles = any(isinstance(c, ast.Constant) and c.value == "not in" for c in ast.walk(dv.node))
+    key = "process_binary_op generates the __contains__ dependency for `not in` too"
+    if handles or in_table or not checker_not_in:
+        r10.ok(key, dv.loc(), "handled in the function" if handles else "op_methods has the entry")
+    else:
+        r10.violation(key, dv.loc(), "`op_methods.get('not in')` is None, so no dependency is generated for `x not in c`")
+
+
+def run_reprocess_ignore_notes(chk: Check, ix) -> None:
+    """R03.11: what a full module update reports about ignore comments, a partial re-check reports too."""
+    r11 = chk.rule("R03.11", "update_module_isolated (a whole module is re-checked) finishes with State.generate_unused_ignore_notes() and generate_ignore_without_code_notes(); reprocess_nodes (only the triggered targets of a module are re-checked) is the other way diagnostics of a module change in the daemon, so it produces the same two kinds of diagnostics for the module it re-checked: an ignore comment that becomes unused because a dependency changed is otherwise never reported by the daemon, while a full run reports it", floor=2)
+    full = ix.func("mypy.server.update.update_module_isolated")
+    part = ix.func("mypy.server.update.reprocess_nodes")
+    for meth in ("generate_unused_ignore_notes", "generate_ignore_without_code_notes"):
+        in_full = any(isinstance(c, ast.Call) and call_name(c) == meth for c in ast.walk(full.node))
+        in_part = any(isinstance(c, ast.Call) and call_name(c) in (meth, meth.replace("_notes", "_errors")) for c in ast.walk(part.node))
+        key = f"reprocess_nodes also runs {meth} (update_module_isolated does)"
+        if not in_full:
+            r11.info(f"update_module_isolated no longer calls {meth}", full.loc(), "nothing to agree with")
+        elif in_part:
+            r11.ok(key, part.loc())
+        else:
+            r11.violation(key, part.loc(), f"after a partial re-check the module's {'unused-ignore' if 'unused' in meth else 'ignore-without-code'} diagnostics are not regenerated")
